@@ -654,7 +654,7 @@ namespace vh
    {
       static const long m = []() {
          const char* e = std::getenv( "VH_MAX_STEPS" );
-         return ( e != nullptr ) ? std::atol( e ) : 20000L;
+         return ( e != nullptr ) ? std::atol( e ) : 4000L;
       }();
       return m;
    }
